@@ -870,6 +870,128 @@ def check_txdata(chk, F):
     chk.floor(R, "combinations evaluated", total, 15000)
 
 
+# ---- R13.5 signature-hash flavour per output type ---------------------------------------------------------------
+
+INNER = "interpreter::inner::Inner"
+PKT = "interpreter::inner::PubkeyType"
+SCT = "interpreter::inner::ScriptType"
+INTERP = "interpreter::Interpreter"
+KSP = "interpreter::KeySigPair"
+
+FLAVOUR = {  # BIP-143 / BIP-341: which signature-hash algorithm a spend of each output type commits to
+    ("PublicKey", "Pk"): "legacy", ("PublicKey", "Pkh"): "legacy", ("Script", "Bare"): "legacy", ("Script", "Sh"): "legacy",
+    ("PublicKey", "Wpkh"): "segwitv0", ("PublicKey", "ShWpkh"): "segwitv0", ("Script", "Wsh"): "segwitv0",
+    ("Script", "ShWsh"): "segwitv0", ("PublicKey", "Tr"): "taproot-key", ("Script", "Tr"): "taproot-script",
+}
+HASHFN = {"legacy": "legacy_signature_hash", "segwitv0": "p2wsh_signature_hash",
+          "taproot-key": "taproot_key_spend_signature_hash", "taproot-script": "taproot_script_spend_signature_hash"}
+
+
+def term_calls(t, out):
+    if isinstance(t, Term):
+        if t.op == "call":
+            out.append((str(t.args[0]), t.args[1:]))
+        for a in t.args:
+            term_calls(a, out)
+    elif isinstance(t, Adt):
+        for v in t.fields.values():
+            term_calls(v, out)
+    elif isinstance(t, (PyVec, tuple, list)):
+        for v in (t.items if isinstance(t, PyVec) else t):
+            term_calls(v, out)
+    return out
+
+
+def check_sighash_partition(chk, F):
+    R = "R13.5"
+    chk.rule(R, "for each of the 10 inner kinds: exactly one of is_legacy / is_segwit_v0 / is_taproot_v1_key_spend / "
+                "is_taproot_v1_script_spend holds and it is the BIP-143/341 one; sig_type is Schnorr exactly for taproot; "
+                "Interpreter::verify_sig feeds the signature check with that flavour's sighash over the stored script code, "
+                "and refuses a signature of the other kind")
+    preds = {"legacy": "is_legacy", "segwitv0": "is_segwit_v0", "taproot-key": "is_taproot_v1_key_spend",
+             "taproot-script": "is_taproot_v1_script_spend"}
+    paths = {k: F.fn(v, file="interpreter/mod.rs") for k, v in preds.items()}
+    sigty = F.fn("sig_type", file="interpreter/mod.rs", container="Interpreter")
+    vsig = F.fn("verify_sig", file="interpreter/mod.rs", container="Interpreter")
+    chk.saw(sigty, vsig, *paths.values())
+    m = Machine(F, strict=True)
+    ms_ = Machine(F, strict=False, opaque_unknown=True)
+    for (ik, sub), flavour in sorted(FLAVOUR.items()):
+        key = "%s/%s" % (ik, sub)
+        payload = Adt(BK, "Fullkey", {"0": Term("pk")}) if ik == "PublicKey" else ms(Term("node"))
+        inner = Adt(INNER, ik, {"0": payload, "1": Adt(PKT if ik == "PublicKey" else SCT, sub, {})})
+        it = Adt(INTERP, "Interpreter", {"inner": inner, "stack": Term("stack"), "script_code": some(Term("script_code")),
+                                         "sequence": Term("seq"), "lock_time": Term("lt")})
+        got = {f: m.call_path(p, [it]) for f, p in paths.items()}
+        want = {f: f == flavour for f in paths}
+        chk.obligation(R, got == want, "class|" + key, "classification %r, BIP-143/341 says %s" % (got, flavour),
+                       where="src/interpreter/mod.rs")
+        st = m.call_path(sigty, [it])
+        chk.obligation(R, st.variant == ("Schnorr" if flavour.startswith("taproot") else "Ecdsa"), "sig_type|" + key,
+                       "sig_type %s for %s" % (st.variant, key), where="src/interpreter/mod.rs")
+        for pair_kind in ("Ecdsa", "Schnorr"):
+            sig = Adt(KSP, pair_kind, {"0": Term("key"), "1": Term("sig")})
+            try:
+                from ..interp import explore
+                prevouts = Adt("bitcoin::sighash::Prevouts", "All", {"0": Term("prevouts")})
+                res = explore(ms_, lambda: ms_.call_path(vsig, [it, Term("secp"), Term("tx"), Term("idx"),
+                                                               prevouts, sig]), lambda t, taken: None)
+            except Unsupported as e:
+                chk.fail(R, "unanalysable:verify_sig|%s|%s" % (key, pair_kind), "unanalysable: %s" % e, where=e.where,
+                         kind="unanalysable")
+                continue
+            used = set()
+            only_false = True
+            for conds, val in res:
+                if val is False:
+                    continue
+                only_false = False
+                calls = term_calls(val, [])
+                for nm, args in calls:
+                    for fl, fn in HASHFN.items():
+                        if nm.endswith("::" + fn):
+                            used.add((fl, any("script_code" in repr(a) for a in args)))
+            compatible = (pair_kind == "Schnorr") == flavour.startswith("taproot")
+            if not compatible:
+                chk.obligation(R, only_false, "refuse|%s|%s" % (key, pair_kind),
+                               "a %s signature is not refused outright for %s (hash used: %r)" % (pair_kind, key, used),
+                               where="src/interpreter/mod.rs")
+            else:
+                needs_code = flavour != "taproot-key"
+                chk.obligation(R, used == {(flavour, needs_code)}, "hash|%s|%s" % (key, pair_kind),
+                               "signature check for %s uses %r, expected the %s sighash%s"
+                               % (key, sorted(used), flavour, " over the script code" if needs_code else ""),
+                               where="src/interpreter/mod.rs")
+
+
+def check_pubkey_spend(chk, F):
+    R = "R13.1p"
+    chk.rule(R, "single-key spends (pk, pkh, wpkh, sh-wpkh, taproot key path): the iterator accepts exactly the stacks "
+                "on which `<key> CHECKSIG` (resp. the taproot key-path rule) succeeds, for all stacks up to length 2")
+    h = harness(F)
+    tx = X.Tx()
+    for ctx in ("segwitv0", "tap"):
+        kk = X.keykind(ctx)
+        alpha = [0, 1, X.sig("A", kk), X.sig("B", kk), X.sig("A", "schnorr" if kk == "ecdsa" else "ecdsa"), X.JUNK, X.key("A", kk)]
+        bad = []
+        n = 0
+        for ln in range(0, 3):
+            for w in itertools.product(alpha, repeat=ln):
+                n += 1
+                st, cons, detail = h.run(None, list(w), tx, ctx, public_key=bkey("A", ctx))
+                if ctx == "tap":
+                    ref = list(w) == [X.sig("A", kk)]
+                    rlog = [("sig", "A")] if ref else []
+                else:
+                    ref, rlog, _ = X.execute([("push", X.key("A", kk)), ("op", "CHECKSIG")], list(w), tx, ctx)
+                if st == "ok" and (not ref or sorted(map(repr, cons)) != sorted(map(repr, rlog))):
+                    bad.append("stack %r accepted (constraints %r), reference: %s %r" % (list(w), cons, ref, rlog))
+                if st != "ok" and list(w) == [X.sig("A", kk)]:
+                    bad.append("the plain signature stack is rejected: %s" % detail)
+        chk.obligation(R, not bad, ctx, "%d stack(s); first: %s" % (len(bad), bad[0] if bad else ""),
+                       where="src/interpreter/mod.rs", detail=bad[:10])
+
+
 def run(chk):
     F = chk.facts()
     chk.explanation = __doc__
@@ -880,3 +1002,7 @@ def run(chk):
         chk.guard("R13.2", "iter", check_iter, chk, F)
     if not ONLY or "4" in ONLY:
         chk.guard("R13.4", "from_txdata", check_txdata, chk, F)
+    if not ONLY or "5" in ONLY:
+        chk.guard("R13.5", "sighash", check_sighash_partition, chk, F)
+    if not ONLY or "p" in ONLY:
+        chk.guard("R13.1p", "pubkey", check_pubkey_spend, chk, F)
